@@ -154,7 +154,7 @@ validations:
       ex.p1:
         minCount: 1
 `,
-	// 3: conditionals, negation, several constraints on one property
+	// 3: conditionals, negation, several constraints on one property, string values that equal sibling key names
 	`profile: c15 conditionals
 prefixes:
   ex: http://ex.org/
@@ -162,6 +162,7 @@ warning:
   - cond
 violation:
   - neg
+  - shadow
 validations:
   cond:
     message: cond
@@ -183,6 +184,13 @@ validations:
             propertyConstraints:
               ex.p4:
                 minCount: 1
+  shadow:
+    targetClass: ex.T
+    message: targetClass
+    propertyConstraints:
+      ex.tag:
+        minCount: 1
+        pattern: minCount
   neg:
     message: neg
     targetClass: ex.T
@@ -211,6 +219,9 @@ func c15Graph() *Graph {
 	for m := 0; m < 8; m++ {
 		n := g.Add(nid(m), EX+"T")
 		n.P(EX+"name", names[m])
+		if m%2 == 0 {
+			n.P(EX+"tag", "minCount-ok") // a scalar VALUE in the profile equals a sibling KEY name (`pattern: minCount`)
+		}
 		for i := 0; i < 3; i++ {
 			if m&(1<<i) != 0 {
 				n.P(fmt.Sprintf("%sp%d", EX, i+1), "v")
